@@ -26,6 +26,14 @@ Three things are checked:
      a property failure with the concrete configuration as replay.
  (c) execution: a stratified sample is compiled and run for 2 steps with
      output enabled; every float property must stay finite.
+ (d) types: for EVERY grid point the known C types the real code generator is
+     given (get_known_types_for_arrays(get_all_array_names(arrays))) must be
+     integer pointers for every array argument an element of which an equation
+     or stepper uses as an index; and for a stratified sample that covers every
+     scheme and every pair of option values (every value at least once) the
+     generated source is put through the real Cython translation step
+     (pyx -> C++, no C compiler), set up as compyle's ExtModule does.  A Cython
+     error is a property failure `C12:<Scheme>:cython:<first error>`.
 """
 import contextlib
 import io
@@ -63,6 +71,27 @@ def real_description(name, digits, scheme, particles, equations):
     for pa in particles:
         have[pa.name] = set(pa.properties.keys()) | set(pa.constants.keys())
         parts.append('arr:%s:%s' % (pa.name, _names(have[pa.name])))
+    # C types / strides straight from the carrays of the real arrays
+    ctype = {}
+    for pa in particles:
+        ty = {}
+        for coll in (pa.properties, pa.constants):
+            for n, arr in coll.items():
+                ty[n] = arr.get_c_type()
+        ctype[pa.name] = ty
+        strides = sorted((n, int(sd)) for n, sd in pa.stride.items()
+                         if n in ty and int(sd) != 1)
+        parts.append('ty:%s:int=%s;uint=%s;long=%s;float=%s;strides=%s' % (
+            pa.name,
+            _names(n for n, c in ty.items() if c == 'int'),
+            _names(n for n, c in ty.items() if c == 'unsigned int'),
+            _names(n for n, c in ty.items() if c == 'long'),
+            _names(n for n, c in ty.items() if c == 'float'),
+            ','.join('%s*%d' % x for x in strides) if strides else '_'))
+        other = set(ty.values()) - set(S.CTYPES)
+        if other:
+            raise RuntimeError('C types outside the model: %s' % other)
+    index_used = set()
     complete = True
     missing = []
     for st in S.flatten_groups(equations):
@@ -82,9 +111,16 @@ def real_description(name, digits, scheme, particles, equations):
                 srcs = '+'.join(s if s in have else '!invalid'
                                 for s in eq.sources)
             dname = eq.dest if eq.dest in have else '!invalid'
-            parts.append('eq:%s:%s:%s:%s:%s:%s' % (
+            ix = set()
+            for h in S.HOOKS:
+                if getattr(eq, h, None) is not None:
+                    ix |= set(S.index_uses(type(eq), h))
+            ixd = set(x[2:] for x in ix if x.startswith('d_'))
+            ixs = set(x[2:] for x in ix if x.startswith('s_'))
+            index_used |= ixd | ixs
+            parts.append('eq:%s:%s:%s:%s:%s:%s:%s:%s' % (
                 type(eq).__name__, dname, srcs, _names(nd), _names(ns),
-                _names(imp)))
+                _names(imp), _names(ixd), _names(ixs)))
             if eq.dest not in have:
                 complete = False
                 missing.append((type(eq).__name__, eq.dest, ['<no such array>']))
@@ -106,15 +142,18 @@ def real_description(name, digits, scheme, particles, equations):
     for arr, stp in integ.steppers.items():
         need = set()
         imp = set()
+        six = set()
         for x in dir(stp):
             if x.startswith('py_stage'):
                 imp |= set(S.implicit_reads(type(stp), x))
             elif x.startswith('stage') or x == 'initialize':
                 s, d = get_array_names(getfullargspec(getattr(stp, x)).args)
                 need |= set(y[2:] for y in (s | d))
-        parts.append('st:%s:%s:%s:%s' % (
+                six |= set(y[2:] for y in S.index_uses(type(stp), x))
+        index_used |= six
+        parts.append('st:%s:%s:%s:%s:%s' % (
             type(stp).__name__, arr if arr in have else '!invalid',
-            _names(need), _names(imp)))
+            _names(need), _names(imp), _names(six)))
         if arr not in have:
             complete = False
             missing.append((type(stp).__name__, arr, ['<no such array>']))
@@ -123,7 +162,43 @@ def real_description(name, digits, scheme, particles, equations):
             if m:
                 complete = False
                 missing.append((type(stp).__name__, arr, sorted(m)))
-    return parts, complete, missing
+    # the model's type verdict, evaluated here on the real arrays' carrays:
+    # index-used names are an integer property somewhere, a floating one nowhere
+    typesok = True
+    for n in index_used:
+        cts = [ty[n] for ty in ctype.values() if n in ty]
+        if not any(c in S.INTEGRAL_CTYPES for c in cts) or \
+                any(c not in S.INTEGRAL_CTYPES for c in cts):
+            typesok = False
+    return parts, complete, missing, typesok
+
+
+def index_type_failures(scheme, particles, equations):
+    """property oracle for the types, on the real code generator's own view:
+    get_known_types_for_arrays(get_all_array_names(arrays)) is what
+    AccelerationEvalCythonHelper hands to compyle; an argument without a known
+    type is `double*` (CythonGenerator.detect_type).  -> [(class, method,
+    argument, c type)] for the arguments an element of which is used as an
+    index while the known type is not an integer pointer"""
+    from pysph.sph.acceleration_eval_cython_helper import (
+        get_all_array_names, get_known_types_for_arrays)
+    known = get_known_types_for_arrays(get_all_array_names(particles))
+    okt = set(c + '*' for c in S.INTEGRAL_CTYPES)
+    bad = []
+
+    def chk(obj, meths):
+        for h in meths:
+            for arg in S.index_uses(type(obj), h):
+                kt = known[arg].type if arg in known else 'double*'
+                if kt not in okt:
+                    bad.append((type(obj).__name__, h, arg, kt))
+    for st in S.flatten_groups(equations):
+        for _, eq in st:
+            chk(eq, [h for h in S.HOOKS if getattr(eq, h, None) is not None])
+    for arr, stp in scheme.get_solver().integrator.steppers.items():
+        chk(stp, [x for x in dir(stp) if (x.startswith('stage') or
+                                          x == 'initialize')])
+    return sorted(set(bad))
 
 
 def real_checkers(scheme, particles, equations, codegen):
@@ -181,13 +256,14 @@ def examine(job):
     try:
         with contextlib.redirect_stdout(buf):
             fail = real_checkers(scheme, particles, equations, codegen)
+            tbad = index_type_failures(scheme, particles, equations)
             if describe_it or fail is not None:
-                parts, complete, missing = real_description(
+                parts, complete, missing, typesok = real_description(
                     name, digits, scheme, particles, equations)
             else:
                 # the real checkers accepted; the full description (and the
                 # dst.<name> reads) is evaluated on the compared points
-                parts, complete, missing = [], True, []
+                parts, complete, missing, typesok = [], True, [], None
     except Exception as e:
         out['harness_error'] = traceback.format_exc()[-800:]
         return out
@@ -195,10 +271,12 @@ def examine(job):
     out['missing'] = missing
     out['fail'] = fail
     out['accepted'] = fail is None
+    out['type_failures'] = tbad
     if describe_it:
         out['line'] = '|'.join(parts + [
             'accepted:%s' % ('T' if fail is None else 'F'),
-            'complete:%s' % ('T' if complete else 'F')])
+            'complete:%s' % ('T' if complete else 'F'),
+            'typesok:%s' % ('T' if typesok else 'F')])
     out['neq'] = sum(1 for p in parts if p.startswith('eq:'))
     return out
 
@@ -285,6 +363,134 @@ def run_job(job):
 
 
 # --------------------------------------------------------------------------
+# code generation + the Cython translation step (no C compiler)
+
+def cythonize_source(code, workdir):
+    """pyx -> C++ by Cython alone, with the extension set up the way
+    compyle.ext_module.ExtModule.build does for the generated module
+    (language c++, numpy include, the pysph root on the cython include path;
+    pyxbuild would next hand the .cpp to the C++ compiler, which is what the
+    full runs do).  The verdict per distinct source text is cached in
+    `workdir`.  -> (ok, first error line, excerpt)"""
+    import hashlib
+    import re
+    name = 'm_' + hashlib.md5(code.encode()).hexdigest()
+    os.makedirs(workdir, exist_ok=True)
+    resf = os.path.join(workdir, name + '.json')
+    if os.path.exists(resf):
+        try:
+            return tuple(json.load(open(resf))) + (True,)
+        except ValueError:
+            pass
+    from Cython.Build import cythonize
+    from Cython.Distutils import Extension
+    import numpy
+    import pysph
+    pyx = os.path.join(workdir, '%s_%d.pyx' % (name, os.getpid()))
+    with open(pyx, 'w') as fh:
+        fh.write(code)
+    root = os.path.dirname(os.path.dirname(os.path.realpath(pysph.__file__)))
+    ext = Extension(name=name, sources=[pyx],
+                    include_dirs=[numpy.get_include()],
+                    cython_include_dirs=[root], language='c++')
+    err = io.StringIO()
+    ok = True
+    try:
+        with contextlib.redirect_stderr(err), contextlib.redirect_stdout(err):
+            cythonize([ext], force=True, quiet=True, nthreads=0,
+                      include_path=[root],
+                      build_dir=os.path.join(workdir, 'b%d' % os.getpid()))
+    except (Exception, SystemExit) as e:    # CompileError
+        ok = False
+        err.write('\n%s: %s' % (type(e).__name__, e))
+    text = err.getvalue()
+    first, excerpt = '', ''
+    if not ok:
+        m = re.search(r'^[^\n]*\.pyx:\d+:\d+: (.*)$', text, re.M)
+        lines = [l for l in text.split('\n') if l.strip()]
+        first = m.group(1).strip() if m else (lines[-1] if lines else '?')
+        k = text.find('Error compiling Cython file')
+        excerpt = text[k:k + 900] if k >= 0 else text[-900:]
+    for f in (pyx, pyx[:-4] + '.cpp'):
+        try:
+            os.remove(f)
+        except OSError:
+            pass
+    tmp = resf + '.%d' % os.getpid()
+    with open(tmp, 'w') as fh:
+        json.dump([ok, first, excerpt], fh)
+    os.replace(tmp, resf)
+    return ok, first, excerpt, False
+
+
+def cython_job(job):
+    """worker: real code generation of the whole problem + Cython translation
+    of every generated module of one grid point"""
+    name, idx, work = job
+    digits = S.config_of_index(name, idx)
+    out = {'scheme': name, 'index': idx, 'digits': digits,
+           'labels': dict(S.describe(name, digits)), 'modules': 0,
+           'cached': 0}
+    t0 = time.time()
+    buf = io.StringIO()
+    try:
+        with contextlib.redirect_stdout(buf), contextlib.redirect_stderr(buf):
+            scheme, particles, equations = S.run_scheme(name, digits)
+            from pysph.sph.acceleration_eval import make_acceleration_evals
+            from pysph.sph.sph_compiler import SPHCompiler
+            solver = scheme.get_solver()
+            aevals = make_acceleration_evals(particles, equations,
+                                             solver.kernel)
+            comp = SPHCompiler(aevals, solver.integrator)
+            codes = [comp._get_code()] + [
+                h.get_code() for h in comp.acceleration_eval_helpers[1:]]
+    except Exception as e:
+        out['codegen_error'] = (type(e).__name__, str(e)[:400])
+        out['wall'] = time.time() - t0
+        return out
+    out['lines'] = sum(c.count('\n') for c in codes)
+    for code in codes:
+        ok, first, excerpt, cached = cythonize_source(
+            code, os.path.join(work, 'cython'))
+        out['modules'] += 1
+        out['cached'] += 1 if cached else 0
+        if not ok:
+            out['cython_error'] = (first, excerpt)
+            break
+    out['wall'] = time.time() - t0
+    return out
+
+
+def _pairs(dg):
+    return {(i, dg[i], j, dg[j]) for i in range(len(dg))
+            for j in range(i + 1, len(dg))}
+
+
+def cython_sample(name, rng, valid):
+    """a small set of the grid points in `valid` (those that the scheme does
+    not reject and that pass the checkers) covering every pair of axis values
+    that occurs in `valid` at all -- hence every value of every bool /
+    enumerated option, dim, solids, clean at least once.  Greedy."""
+    valid = sorted(valid)
+    if not valid:
+        return []
+    digs = {i: S.config_of_index(name, i) for i in valid}
+    need = set()
+    for dg in digs.values():
+        need |= _pairs(dg)
+    chosen = []
+    while need:
+        cand = rng.sample(valid, min(len(valid), 40))
+        best = max(cand, key=lambda i: len(_pairs(digs[i]) & need))
+        if not (_pairs(digs[best]) & need):
+            pr = sorted(need)[0]
+            best = next(i for i in valid if pr in _pairs(digs[i]))
+        chosen.append(best)
+        need -= _pairs(digs[best])
+    return chosen
+
+
+# --------------------------------------------------------------------------
 # selection of grid points
 
 def stratified(name, rng, per_axis_value=2, extra=20):
@@ -358,6 +564,23 @@ def replay(path, work):
             failed = True
         else:
             print('observed: complete, accepted, code generated')
+        if o.get('type_failures'):
+            print('observed: index-used arguments whose known type is not an '
+                  'integer pointer (class, method, argument, known type):',
+                  o['type_failures'])
+            failed = True
+    if mode in ('types', 'cython') and 'raised' not in o and o['accepted']:
+        c = cython_job((name, idx, work))
+        if 'codegen_error' in c:
+            print('observed: code generation raised', c['codegen_error'])
+            failed = True
+        elif 'cython_error' in c:
+            print('observed: Cython rejects the generated module: %s\n%s'
+                  % tuple(c['cython_error']))
+            failed = True
+        else:
+            print('observed: Cython translated %d generated module(s), %d '
+                  'lines' % (c['modules'], c.get('lines', 0)))
     if mode == 'run' and not failed:
         r = run_job((name, idx, work))
         print('observed run:', {k: r[k] for k in r if k not in ('digits',)})
@@ -458,6 +681,7 @@ def main():
     # property oracle on every examined point
     nfail = 0
     per_key = {}
+    type_fail = {}
     for o in sorted(results, key=lambda o: (o['scheme'], o['index'])):
         R.count('scheme:' + o['scheme'])
         if 'harness_error' in o:
@@ -475,6 +699,23 @@ def main():
                             'combination', 'raised %s: %s' % tuple(o['raised']))
             continue
         R.count('accepted' if o['accepted'] else 'REJECTED-by-real-checker')
+        if o.get('type_failures'):
+            cls, meth, arg, kt = o['type_failures'][0]
+            k = 'C12:%s:index-type:%s.%s:%s' % (o['scheme'], cls, arg,
+                                                kt.rstrip('*'))
+            type_fail.setdefault(k, []).append((o['scheme'], o['index']))
+            if len(type_fail[k]) <= 8:
+                R.prop_fail(
+                    k, dict(case_of(o), mode='types'),
+                    'code generation for the whole problem succeeds: an array '
+                    'argument an element of which an equation / stepper uses '
+                    'as an index (subscript, range bound, assigned to a '
+                    'declared int) is known to the code generator as an '
+                    'int/unsigned int/long pointer',
+                    'get_known_types_for_arrays gives (class, method, '
+                    'argument, type): %s' % (o['type_failures'],))
+        else:
+            R.count('index-types-ok')
         if not o['accepted'] or not o['complete']:
             nfail += 1
             k = key_of(o['scheme'], o['missing'], o['fail'])
@@ -490,8 +731,69 @@ def main():
                 'missing %s; real checker: %s' % (o['missing'], o['fail']))
     for k, n in sorted(per_key.items()):
         R.note('%d grid points fail with key %s' % (n, k))
+    for k, pts in sorted(type_fail.items()):
+        nfail += len(pts)
+        R.note('%d grid points fail with key %s' % (len(pts), k))
     R.count('codegen-points', sum(1 for j in jobs if j[2]))
     R.count('compared-points', len(cmp_res))
+
+    # a rejected / failing point cannot be generated
+    bad = {(o['scheme'], o['index']) for o in results
+           if 'raised' in o or not o.get('accepted') or not o.get('complete')}
+
+    # code generation + Cython translation of a covering sample
+    cy_points = []
+    for n in names:
+        pts = cython_sample(n, rng, [i for i in range(S.grid_size(n))
+                                     if (n, i) not in bad])
+        if thorough:
+            pts += stratified(n, rng, 2, 20)
+        cy_points += [(n, i) for i in pts]
+    # every class of type failure is also put through Cython itself
+    for k, pts in sorted(type_fail.items()):
+        cy_points += pts[:2]
+    cy_points = [p for p in dict.fromkeys(cy_points) if p not in bad]
+    rng.shuffle(cy_points)
+    t1 = time.time()
+    with ctx.Pool(nproc) as pool:
+        cys = list(pool.imap_unordered(
+            cython_job, [(n, i, a.work) for n, i in cy_points], chunksize=1))
+    cy_keys = {}
+    covered = {}
+    for c in sorted(cys, key=lambda c: (c['scheme'], c['index'])):
+        R.count('cython:' + c['scheme'])
+        for ax, lab in c['labels'].items():
+            covered.setdefault(c['scheme'], set()).add((ax, lab))
+        if 'codegen_error' in c:
+            k = 'C12:%s:codegen:%s' % (c['scheme'], c['codegen_error'][0])
+            obs = 'code generation raised %s: %s' % tuple(c['codegen_error'])
+        elif 'cython_error' in c:
+            k = 'C12:%s:cython:%s' % (c['scheme'], c['cython_error'][0])
+            obs = 'Cython rejects the generated module: %s\n%s' % tuple(
+                c['cython_error'])
+        else:
+            R.count('cython-ok')
+            continue
+        nfail += 1
+        cy_keys[k] = cy_keys.get(k, 0) + 1
+        if cy_keys[k] <= 4:
+            R.prop_fail(k, dict(case_of(c), mode='cython'),
+                        'code generation for the whole problem succeeds: the '
+                        'generated module passes the Cython translation step',
+                        obs)
+    for n in names:
+        want = {kv for i in range(S.grid_size(n)) if (n, i) not in bad
+                for kv in S.describe(n, S.config_of_index(n, i)).items()}
+        miss = want - covered.get(n, set())
+        if miss:
+            raise SystemExit('cython sample of %s misses option values %s'
+                             % (n, sorted(miss)))
+    R.note('generated + cythonized %d configurations (%d modules, %d answered '
+           'from the per-source cache) covering every option value of every '
+           'scheme in %.0fs; %d failed'
+           % (len(cys), sum(c['modules'] for c in cys),
+              sum(c['cached'] for c in cys), time.time() - t1,
+              sum(cy_keys.values())))
 
     # compile + run
     run_points = []
@@ -507,10 +809,13 @@ def main():
         rng.shuffle(pool_names)
         for n in pool_names[:3]:
             run_points.append((n, rng.choice(stratified(n, rng, 1, 0))))
-    # a rejected / failing point cannot be run
-    bad = {(o['scheme'], o['index']) for o in results
-           if 'raised' in o or not o.get('accepted') or not o.get('complete')}
-    run_points = [p for p in dict.fromkeys(run_points) if p not in bad]
+    # a rejected / failing point cannot be run (a Cython failure is already
+    # reported above)
+    bad |= {(c['scheme'], c['index']) for c in cys
+            if 'cython_error' in c or 'codegen_error' in c}
+    tf_pts = {p for pts in type_fail.values() for p in pts}
+    run_points = [p for p in dict.fromkeys(run_points)
+                  if p not in bad and p not in tf_pts]
     t1 = time.time()
     with ctx.Pool(min(nproc, max(1, len(run_points)))) as pool:
         runs = list(pool.imap_unordered(
